@@ -195,6 +195,110 @@ pub fn lost_positions(rng: &mut Rng, starts: &[Pos]) -> Vec<Pos> {
 /// C + two rounds of the cycle minus the last move ends with X to move and a forced reply, after
 /// which Y can step into a position that has occurred twice. Used for `go` after `go`: what the
 /// first answer is does not depend on the engine.
+/// One irreversible move (pawn push or capture) in front of a position: a legal position `pre`
+/// and a move `m` of the side that has just moved in `t` with apply(pre, m) == t, found by
+/// un-making a move of one of that side's men (pawn one step back; any man back to an empty
+/// square with a captured enemy man put in its place). None if no such predecessor is found.
+pub fn irreversible_predecessor(t: &Pos, rng: &mut Rng) -> Option<(Pos, Mv)> {
+    if t.ep.is_some() {
+        return None;
+    }
+    let mover = t.stm.other();
+    let mut cands: Vec<(Pos, Mv)> = Vec::new();
+    let mut squares: Vec<u8> = (0..64u8).filter(|s| matches!(t.sq[*s as usize], Some((c, _)) if c == mover)).collect();
+    rng.shuffle(&mut squares);
+    for to in squares.into_iter().take(6) {
+        let (_, kind) = t.sq[to as usize].unwrap();
+        let mut froms: Vec<u8> = (0..64u8).filter(|f| t.sq[*f as usize].is_none()).collect();
+        rng.shuffle(&mut froms);
+        for from in froms.into_iter().take(24) {
+            let captured: &[Option<Kind>] = if kind == Kind::Pawn { &[None, Some(Kind::Knight), Some(Kind::Pawn)] } else { &[Some(Kind::Knight), Some(Kind::Bishop), Some(Kind::Rook), Some(Kind::Pawn)] };
+            for cap in captured {
+                let mut pre = t.clone();
+                pre.stm = mover;
+                pre.sq[to as usize] = cap.map(|k| (mover.other(), k));
+                pre.sq[from as usize] = Some((mover, kind));
+                pre.ep = None;
+                if let Some(Kind::Pawn) = cap {
+                    let r = to / 8;
+                    if r == 0 || r == 7 {
+                        continue;
+                    }
+                }
+                if !is_legal_position(&pre) {
+                    continue;
+                }
+                let m = Mv { from, to, promo: None };
+                if legal_moves(&pre).contains(&m) && apply(&pre, m) == *t {
+                    cands.push((pre, m));
+                }
+            }
+        }
+        if cands.len() >= 4 {
+            break;
+        }
+    }
+    if cands.is_empty() {
+        None
+    } else {
+        let i = rng.below(cands.len() as u64) as usize;
+        Some(cands.swap_remove(i))
+    }
+}
+
+/// The game behind a part-b root: `n` shuffle cycles from `base` (lost side to move), so that
+/// the lost side's move `cyc[0]` leads to a position that has occurred `n` times. `preamble`:
+/// 0 = the game starts at `base`; 1 = an irreversible move of the lost side leads straight to the
+/// target position (the target is the position that arose from the last capture or pawn move of
+/// the game); 2 = an irreversible move of the other side leads to `base` (the target arises one
+/// reversible ply after it). Falls back to 0 when no predecessor is found.
+pub fn cycle_history(base: &Pos, cyc: [Mv; 4], n: usize, preamble: u8, rng: &mut Rng) -> (History, u8) {
+    let plain = |n: usize| {
+        let mut moves = Vec::new();
+        let mut p = base.clone();
+        for _ in 0..n {
+            for m in cyc {
+                moves.push(m);
+                p = apply(&p, m);
+            }
+        }
+        History { start: base.clone(), moves, end: p }
+    };
+    match preamble {
+        1 if n >= 2 => {
+            let t = apply(base, cyc[0]);
+            if let Some((pre, m0)) = irreversible_predecessor(&t, rng) {
+                // pre -m0-> T, then (c1 c2 c3 c0) x (n-1), then c1 c2 c3: T has occurred n times
+                let mut moves = vec![m0];
+                let mut p = t.clone();
+                for k in 0..n {
+                    for (i, m) in [cyc[1], cyc[2], cyc[3], cyc[0]].into_iter().enumerate() {
+                        if k == n - 1 && i == 3 {
+                            break;
+                        }
+                        moves.push(m);
+                        p = apply(&p, m);
+                    }
+                }
+                if p == *base {
+                    return (History { start: pre, moves, end: p }, 1);
+                }
+            }
+            (plain(n), 0)
+        }
+        2 => {
+            if let Some((pre, m0)) = irreversible_predecessor(base, rng) {
+                let h = plain(n);
+                let mut moves = vec![m0];
+                moves.extend(h.moves.iter().copied());
+                return (History { start: pre, moves, end: h.end }, 2);
+            }
+            (plain(n), 0)
+        }
+        _ => (plain(n), 0),
+    }
+}
+
 pub fn forced_reply_cycle(rng: &mut Rng) -> Option<(Pos, [Mv; 4])> {
     let mut a = Pos::empty();
     // X = White here; mirrored at random at the end
@@ -551,15 +655,12 @@ pub fn run(tier: Tier, seed: u64) -> i32 {
             Some(c) => c,
             None => return acc,
         };
-        let mut moves = Vec::new();
-        let mut p = base.clone();
-        for _ in 0..n {
-            for m in cyc {
-                moves.push(m);
-                p = apply(&p, m);
-            }
+        let (hist, pre) = cycle_history(base, cyc, n, (j % 3) as u8, &mut rng);
+        match pre {
+            1 => acc.feature("target_arose_from_the_last_irreversible_move"),
+            2 => acc.feature("target_one_ply_after_the_last_irreversible_move"),
+            _ => {}
         }
-        let hist = History { start: base.clone(), moves, end: p };
         let root = match make_root(hist, &h) {
             Ok(r) => r,
             Err(e) => {
